@@ -30,7 +30,7 @@ Section CopyFile.
     (mstore s (<[h2 := HMemWriter 0 q c (Z.of_nat (length c))]> (<[h1 := HMemReader c (Z.of_nat (length c))]> tbl)) lg ft,
      Ok (N.of_nat (length c))).
   Proof.
-    intros H1 H2 Hne. unfold handle_op. cbn [st_handles mstore]. rewrite H1. cbn [drain]. rewrite H2.
+    intros H1 H2 Hne. rewrite handle_op_no_io by reflexivity. unfold handle_op0. cbn [st_handles mstore]. rewrite H1. cbn [drain]. rewrite H2.
     assert (Hrest : rest_of c 0 = c).
     { unfold rest_of. rewrite Z.min_l by lia. reflexivity. }
     rewrite Hrest. rewrite Z.max_r by lia.
@@ -45,7 +45,7 @@ Section CopyFile.
     handle_op h HDrop (mstore s tbl lg ft) =
     (mstore (<[q := mkMemFile File buf (f_created g) (Some TAuto) (f_accessed g)]> s) (<[h := HClosed]> tbl) lg ft, Ok tt).
   Proof.
-    intros Hh Hq Hg. unfold handle_op. cbn [st_handles mstore]. rewrite Hh.
+    intros Hh Hq Hg. rewrite handle_op_no_io by reflexivity. unfold handle_op0. cbn [st_handles mstore]. rewrite Hh.
     unfold mem_publish. cbn [st_bases mstore lookup]. cbn. rewrite Hq.
     destruct g as [ty c cr mo ac]. cbn in Hg. subst ty. reflexivity.
   Qed.
@@ -53,7 +53,7 @@ Section CopyFile.
   Lemma hop_drop_reader (s : mstate) tbl h c pos :
     tbl !! h = Some (HMemReader c pos) ->
     handle_op h HDrop (mstore s tbl lg ft) = (mstore s (<[h := HClosed]> tbl) lg ft, Ok tt).
-  Proof. intros Hh. unfold handle_op. cbn [st_handles mstore]. rewrite Hh. reflexivity. Qed.
+  Proof. intros Hh. rewrite handle_op_no_io by reflexivity. unfold handle_op0. cbn [st_handles mstore]. rewrite Hh. reflexivity. Qed.
 
   (** the opened source: its access time is stamped, nothing else *)
   Definition touched (f : memfile) : memfile :=
